@@ -224,6 +224,19 @@ def judge(case):
     if not (_close(res.total_amplification, a) or _close(res.total_amplification, b)):
         out.fail("amplification:not-clamped-product", "total_amplification %r, expected %r (running clamp) or %r (final clamp)"
                  % (res.total_amplification, a, b), d)
+        return out
+    # history independence: a second run on the same object behaves like a run on a fresh one
+    if not case.get("_second"):
+        first_log = list(log)
+        del log[:]
+        try:
+            res2 = c.run(list(inp))
+        except Exception as e:
+            out.fail("raise:%s:second-run" % type(e).__name__, "second run() raised %s" % e, d)
+            return out
+        if (res2.success, res2.final_output, res2.blocked_at, res2.total_amplification) != (res.success, res.final_output, res.blocked_at, res.total_amplification) or log != first_log:
+            out.fail("second-run-differs", "running the same pipeline again on the same input gave a different result / invocation log",
+                     dict(d, second={"success": res2.success, "final_output": res2.final_output, "log": list(log)}))
     return out
 
 
